@@ -6,10 +6,13 @@
    Two services: with shared = 1 both use store 1, otherwise service s uses store s
    (service of caller c: 1 + c % 2).  LFU ties are broken by any minimum. *)
 EXTENDS Integers, Sequences, FiniteSets, TLC
-CONSTANTS Callers, CfgSet, MaxTime, Outs, Keys
-VARIABLES cfg, now, st, key, hitVal, gout, gid, ngate, val, at, ord, freq, ev
-vars == <<cfg, now, st, key, hitVal, gout, gid, ngate, val, at, ord, freq, ev>>
-view == <<cfg, now, st, key, hitVal, gout, gid, ngate, val, at, ord, freq>>
+CONSTANTS Callers, CfgSet, MaxTime, Outs, Keys, Extended
+VARIABLES cfg, now, st, key, hitVal, gout, gid, ngate, val, at, ord, freq, cnt, ev
+vars == <<cfg, now, st, key, hitVal, gout, gid, ngate, val, at, ord, freq, cnt, ev>>
+view == <<cfg, now, st, key, hitVal, gout, gid, ngate, val, at, ord, freq, cnt>>
+\* cnt: listener events the cache emits (extended profile): hits, misses, evictions.  The code emits an
+\* eviction event whenever the store was full before an insert, also when the insert only updates a key.
+Lis(c) == IF Extended THEN [lis |-> c] ELSE <<>>
 Stores == {1, 2}
 StoreOf(c) == IF cfg.shared = 1 THEN 1 ELSE 1 + (c % 2)
 \* val[s][k] = 0: absent; ord[s]: recency (lru, least recent first) or insertion (fifo) order; freq[s][k]: lfu use count
@@ -21,12 +24,14 @@ InitWith(cf) ==
   /\ gout = [c \in Callers |-> "none"] /\ gid = [c \in Callers |-> 0] /\ ngate = 0
   /\ val = [s \in Stores |-> [k \in Keys |-> 0]] /\ at = [s \in Stores |-> [k \in Keys |-> 0]]
   /\ ord = [s \in Stores |-> <<>>] /\ freq = [s \in Stores |-> [k \in Keys |-> 0]]
+  /\ cnt = [hit |-> 0, miss |-> 0, evict |-> 0]
 Init == (\E cf \in CfgSet : InitWith(cf)) /\ ev = [e |-> "init"]
 Reset(cf) ==
   /\ cfg' = cf /\ now' = 0 /\ st' = [c \in Callers |-> "idle"] /\ key' = [c \in Callers |-> 1] /\ hitVal' = [c \in Callers |-> 0]
   /\ gout' = [c \in Callers |-> "none"] /\ gid' = [c \in Callers |-> 0] /\ ngate' = 0
   /\ val' = [s \in Stores |-> [k \in Keys |-> 0]] /\ at' = [s \in Stores |-> [k \in Keys |-> 0]]
   /\ ord' = [s \in Stores |-> <<>>] /\ freq' = [s \in Stores |-> [k \in Keys |-> 0]]
+  /\ cnt' = [hit |-> 0, miss |-> 0, evict |-> 0]
   /\ ev' = [e |-> "reset"]
 \* Service::call: the lookup
 Create(c, k) ==
@@ -37,23 +42,25 @@ Create(c, k) ==
           /\ st' = [st EXCEPT ![c] = "hit"] /\ hitVal' = [hitVal EXCEPT ![c] = val[s][k]]
           /\ ord' = (IF cfg.pol = "lru" THEN [ord EXCEPT ![s] = Append(Without(@, k), k)] ELSE ord)
           /\ freq' = (IF cfg.pol = "lfu" THEN [freq EXCEPT ![s][k] = @ + 1] ELSE freq)
-          /\ ev' = [e |-> "create", c |-> c, key |-> k, t |-> now, res |-> "created", ns |-> 0]
+          /\ cnt' = [cnt EXCEPT !.hit = @ + 1]
+          /\ ev' = [e |-> "create", c |-> c, key |-> k, t |-> now, res |-> "created", ns |-> 0] @@ Lis([cnt EXCEPT !.hit = @ + 1])
           /\ UNCHANGED <<gout, gid, ngate, val, at>>
      ELSE \* miss (an expired entry is removed): exactly one inner call
           /\ st' = [st EXCEPT ![c] = "running"] /\ gout' = [gout EXCEPT ![c] = "pending"]
           /\ gid' = [gid EXCEPT ![c] = ngate + 1] /\ ngate' = ngate + 1
           /\ val' = [val EXCEPT ![s][k] = 0] /\ ord' = [ord EXCEPT ![s] = Without(@, k)] /\ freq' = [freq EXCEPT ![s][k] = 0]
-          /\ ev' = [e |-> "create", c |-> c, key |-> k, t |-> now, res |-> "created", ns |-> 1, si |-> ngate + 1]
+          /\ cnt' = [cnt EXCEPT !.miss = @ + 1]
+          /\ ev' = [e |-> "create", c |-> c, key |-> k, t |-> now, res |-> "created", ns |-> 1, si |-> ngate + 1] @@ Lis([cnt EXCEPT !.miss = @ + 1])
           /\ UNCHANGED <<hitVal, at>>
   /\ UNCHANGED <<cfg, now>>
 PollHit(c) ==
   /\ st[c] = "hit" /\ st' = [st EXCEPT ![c] = "done"]
   /\ ev' = [e |-> "poll", c |-> c, t |-> now, res |-> "ok", val |-> hitVal[c], ns |-> 0, nd |-> 0]
-  /\ UNCHANGED <<cfg, now, key, hitVal, gout, gid, ngate, val, at, ord, freq>>
+  /\ UNCHANGED <<cfg, now, key, hitVal, gout, gid, ngate, val, at, ord, freq, cnt>>
 Complete(c, o) ==
   /\ st[c] = "running" /\ gout[c] = "pending" /\ gout' = [gout EXCEPT ![c] = o]
   /\ ev' = [e |-> "complete", c |-> c, i |-> gid[c], out |-> o, t |-> now]
-  /\ UNCHANGED <<cfg, now, st, key, hitVal, gid, ngate, val, at, ord, freq>>
+  /\ UNCHANGED <<cfg, now, st, key, hitVal, gid, ngate, val, at, ord, freq, cnt>>
 \* victims the policy may choose when store s is full and key k is new
 Victims(s) ==
   IF cfg.pol = "lfu" THEN {v \in Present(s) : \A w \in Present(s) : freq[s][v] <= freq[s][w]}
@@ -74,21 +81,23 @@ InsertInto(s, k, v) ==
 PollInsert(c) ==
   /\ st[c] = "running" /\ gout[c] \in {"ok", "e1"} /\ st' = [st EXCEPT ![c] = "done"]
   /\ IF gout[c] = "ok"
-     THEN InsertInto(StoreOf(c), key[c], gid[c]) /\ ev' = [e |-> "poll", c |-> c, t |-> now, res |-> "ok", val |-> gid[c], rq |-> c, ns |-> 0, nd |-> 1]
-     ELSE UNCHANGED <<val, at, ord, freq>> /\ ev' = [e |-> "poll", c |-> c, t |-> now, res |-> "err", kind |-> "inner1", val |-> gid[c], ns |-> 0, nd |-> 1]    \* errors are never cached
+     THEN (LET c2 == IF Cardinality(Present(StoreOf(c))) >= cfg.max THEN [cnt EXCEPT !.evict = @ + 1] ELSE cnt IN
+           InsertInto(StoreOf(c), key[c], gid[c]) /\ cnt' = c2
+           /\ ev' = [e |-> "poll", c |-> c, t |-> now, res |-> "ok", val |-> gid[c], rq |-> c, ns |-> 0, nd |-> 1] @@ Lis(c2))
+     ELSE UNCHANGED <<val, at, ord, freq, cnt>> /\ ev' = [e |-> "poll", c |-> c, t |-> now, res |-> "err", kind |-> "inner1", val |-> gid[c], ns |-> 0, nd |-> 1]    \* errors are never cached
   /\ UNCHANGED <<cfg, now, key, hitVal, gout, gid, ngate>>
 PollStutter(c) ==
   /\ st[c] = "running" /\ gout[c] = "pending"
   /\ ev' = [e |-> "poll", c |-> c, t |-> now, res |-> "pending", ns |-> 0, nd |-> 0]
-  /\ UNCHANGED <<cfg, now, st, key, hitVal, gout, gid, ngate, val, at, ord, freq>>
+  /\ UNCHANGED <<cfg, now, st, key, hitVal, gout, gid, ngate, val, at, ord, freq, cnt>>
 Drop(c) ==
   /\ st[c] \in {"hit", "running"} /\ st' = [st EXCEPT ![c] = "done"]
   /\ ev' = [e |-> "drop", c |-> c, t |-> now, ns |-> 0]
-  /\ UNCHANGED <<cfg, now, key, hitVal, gout, gid, ngate, val, at, ord, freq>>
+  /\ UNCHANGED <<cfg, now, key, hitVal, gout, gid, ngate, val, at, ord, freq, cnt>>
 Advance(d) ==
   /\ d > 0 /\ \A c \in Callers : st[c] # "hit" /\ ~(st[c] = "running" /\ gout[c] \notin {"none", "pending"})
   /\ now' = now + d /\ ev' = [e |-> "advance", d |-> d, t |-> now + d]
-  /\ UNCHANGED <<cfg, st, key, hitVal, gout, gid, ngate, val, at, ord, freq>>
+  /\ UNCHANGED <<cfg, st, key, hitVal, gout, gid, ngate, val, at, ord, freq, cnt>>
 PollAny(c) == PollHit(c) \/ PollInsert(c) \/ PollStutter(c)
 Next ==
   \/ \E c \in Callers : (\E k \in Keys : Create(c, k)) \/ PollHit(c) \/ PollInsert(c)
